@@ -22,7 +22,10 @@ class Observer(MuxObserver):
 
 
 def configs(tier):
-    return layouts(tier)
+    ls = layouts(tier)
+    # the same instance elaborated twice (the second elaboration is explored): every finite sharing limit
+    twice = [dict(l, elab_twice=True) for l in ls if l["ov"] == 0 and len(l["regs"]) >= 2][::4]
+    return ls + twice
 
 
 def run_config(cfg, tier, seed):
